@@ -50,36 +50,35 @@ def Nnearests(
     """
     logger.info(f"Calculate {N} nearest neighbors for a {len(ppp)}-dimensional system")
 
-    fneighbor = open(fnfile, 'w', encoding="utf-8")
-    for snapshot in snapshots.snapshots:
-        hmatrix = snapshot.hmatrix
-        positions = snapshot.positions
-        nparticle = snapshot.nparticle
-        neighbor = np.zeros((nparticle, 2 + N), dtype=np.int32)
-        neighbor[:, 0] = np.arange(nparticle) + 1
-        neighbor[:, 1] = N
-        for i in range(nparticle):
-            RIJ = positions - positions[i]
-            RIJ = remove_pbc(RIJ, hmatrix, ppp)
-            RIJ_norm = np.linalg.norm(RIJ, axis=1)
-            nearests = np.argpartition(RIJ_norm, N)[:N + 1]
-            # sort nearests based on distance
-            nearests = nearests[RIJ_norm[nearests].argsort()]
-            # nearests include the centered atom itself, so indexing [1:]
-            # the saved particle ID is numbered starting from 1
-            neighbor[i, 2:] = nearests[1:] + 1
-        np.set_printoptions(threshold=np.inf, linewidth=np.inf)
-        # the neighborlist of each snapshot starts with header "id cn
-        # neighborlist"
-        fneighbor.write('id     cn     neighborlist\n')
-        fneighbor.write(
-            re.sub(
-                r'[\[\]]',
-                ' ',
-                np.array2string(neighbor) +
-                '\n'))
+    with open(fnfile, 'w', encoding="utf-8") as fneighbor:
+        for snapshot in snapshots.snapshots:
+            hmatrix = snapshot.hmatrix
+            positions = snapshot.positions
+            nparticle = snapshot.nparticle
+            neighbor = np.zeros((nparticle, 2 + N), dtype=np.int32)
+            neighbor[:, 0] = np.arange(nparticle) + 1
+            neighbor[:, 1] = N
+            for i in range(nparticle):
+                RIJ = positions - positions[i]
+                RIJ = remove_pbc(RIJ, hmatrix, ppp)
+                RIJ_norm = np.linalg.norm(RIJ, axis=1)
+                nearests = np.argpartition(RIJ_norm, N)[:N + 1]
+                # sort nearests based on distance
+                nearests = nearests[RIJ_norm[nearests].argsort()]
+                # nearests include the centered atom itself, so indexing [1:]
+                # the saved particle ID is numbered starting from 1
+                neighbor[i, 2:] = nearests[1:] + 1
+            np.set_printoptions(threshold=np.inf, linewidth=np.inf)
+            # the neighborlist of each snapshot starts with header "id cn
+            # neighborlist"
+            fneighbor.write('id     cn     neighborlist\n')
+            fneighbor.write(
+                re.sub(
+                    r'[\[\]]',
+                    ' ',
+                    np.array2string(neighbor) +
+                    '\n'))
 
-    fneighbor.close()
     logger.info(f"{N}-nearest neighbors saved to {fnfile}")
 
 
@@ -110,30 +109,29 @@ def cutoffneighbors(
     """
 
     logger.info( f"Calculate neighbors within {r_cut} for a {len(ppp)} - dimensional system")
-    fneighbor = open(fnfile, 'w', encoding="utf-8")
-    for snapshot in snapshots.snapshots:
-        hmatrix = snapshot.hmatrix
-        positions = snapshot.positions
-        nparticle = snapshot.nparticle
-        neighbor = np.arange(nparticle).astype(np.int32)
-        fneighbor.write('id     cn     neighborlist\n')
-        for i in range(nparticle):
-            RIJ = positions - positions[i]
-            RIJ = remove_pbc(RIJ, hmatrix, ppp)
-            RIJ_norm = np.linalg.norm(RIJ, axis=1)
-            nearests = neighbor[RIJ_norm <= r_cut]
-            CN = nearests.shape[0] - 1
-            nearests = nearests[RIJ_norm[nearests].argsort()]
-            # nearests include the centered atom itself, so indexing [1:]
-            nearests = nearests[1:] + 1
-            # the saved particle ID is numbered starting from 1
-            # the neighborlist of each snapshot starts with header "id cn
-            # neighborlist"
-            fneighbor.write('%d %d ' % (i + 1, CN))
-            fneighbor.write(' '.join(map(str, nearests)))
-            fneighbor.write('\n')
+    with open(fnfile, 'w', encoding="utf-8") as fneighbor:
+        for snapshot in snapshots.snapshots:
+            hmatrix = snapshot.hmatrix
+            positions = snapshot.positions
+            nparticle = snapshot.nparticle
+            neighbor = np.arange(nparticle).astype(np.int32)
+            fneighbor.write('id     cn     neighborlist\n')
+            for i in range(nparticle):
+                RIJ = positions - positions[i]
+                RIJ = remove_pbc(RIJ, hmatrix, ppp)
+                RIJ_norm = np.linalg.norm(RIJ, axis=1)
+                nearests = neighbor[RIJ_norm <= r_cut]
+                CN = nearests.shape[0] - 1
+                nearests = nearests[RIJ_norm[nearests].argsort()]
+                # nearests include the centered atom itself, so indexing [1:]
+                nearests = nearests[1:] + 1
+                # the saved particle ID is numbered starting from 1
+                # the neighborlist of each snapshot starts with header "id cn
+                # neighborlist"
+                fneighbor.write('%d %d ' % (i + 1, CN))
+                fneighbor.write(' '.join(map(str, nearests)))
+                fneighbor.write('\n')
 
-    fneighbor.close()
     logger.info(f"Neighbors within {r_cut} saved to {fnfile}")
 
 
@@ -183,26 +181,25 @@ def cutoffneighbors_particletype(
         for j in range(cutoffs.shape[1]):
             cutoffs[i, j] = r_cut[i, snapshots.snapshots[0].particle_type[j] - 1]
 
-    fneighbor = open(fnfile, 'w', encoding="utf-8")
-    for snapshot in snapshots.snapshots:
-        hmatrix = snapshot.hmatrix
-        positions = snapshot.positions
-        nparticle = snapshot.nparticle
-        particle_type = snapshot.particle_type
-        neighbor = np.arange(nparticle).astype(np.int32)
-        fneighbor.write('id     cn     neighborlist\n')
-        for i in range(nparticle):
-            RIJ = positions - positions[i]
-            RIJ = remove_pbc(RIJ, hmatrix, ppp)
-            RIJ_norm = np.linalg.norm(RIJ, axis=1)
-            i_cutoffs = cutoffs[particle_type[i] - 1]
-            nearests = neighbor[(RIJ_norm - i_cutoffs) <= 0]
-            CN = nearests.shape[0] - 1
-            nearests = nearests[RIJ_norm[nearests].argsort()]
-            nearests = nearests[1:] + 1
-            fneighbor.write('%d %d ' % (i + 1, CN))
-            fneighbor.write(' '.join(map(str, nearests)))
-            fneighbor.write('\n')
-    fneighbor.close()
+    with open(fnfile, 'w', encoding="utf-8") as fneighbor:
+        for snapshot in snapshots.snapshots:
+            hmatrix = snapshot.hmatrix
+            positions = snapshot.positions
+            nparticle = snapshot.nparticle
+            particle_type = snapshot.particle_type
+            neighbor = np.arange(nparticle).astype(np.int32)
+            fneighbor.write('id     cn     neighborlist\n')
+            for i in range(nparticle):
+                RIJ = positions - positions[i]
+                RIJ = remove_pbc(RIJ, hmatrix, ppp)
+                RIJ_norm = np.linalg.norm(RIJ, axis=1)
+                i_cutoffs = cutoffs[particle_type[i] - 1]
+                nearests = neighbor[(RIJ_norm - i_cutoffs) <= 0]
+                CN = nearests.shape[0] - 1
+                nearests = nearests[RIJ_norm[nearests].argsort()]
+                nearests = nearests[1:] + 1
+                fneighbor.write('%d %d ' % (i + 1, CN))
+                fneighbor.write(' '.join(map(str, nearests)))
+                fneighbor.write('\n')
 
     logger.info(f"Particle-type specific neighbors saved to {fnfile}")
